@@ -26,7 +26,9 @@ CONSTANTS
     Regex,                       \* the path comes from a regular-expression configuration
     Fallback,                    \* a fallback is configured
     MaxSteps,                    \* bound on the length of behaviours
-    KeepHist                     \* FALSE: do not record the history (walk generation)
+    KeepHist,                    \* FALSE: do not record the history (walk generation)
+    InitFailureTakesStreamDown   \* TRUE = the code; FALSE = the defect repaired in /repo: the stream stayed
+                                 \* available without a source when SubStream.Initialize failed
 
 HasStatic      == SourceKind \in {"static", "staticOnDemand"}
 OnDemandStatic == SourceKind = "staticOnDemand"
@@ -146,6 +148,20 @@ DoAddPublisher(st, p, n) ==
              e == ConsumeOnHold(d)
          IN Ev(e, Resp(p, "stream", n))
 
+\* a publisher whose sub-stream cannot be initialized (e.g. RTP packets of a packetization the
+\* server cannot decode): subStream.Initialize() fails AFTER setAvailable(); the stream that was
+\* just made available is taken down again and the publisher gets the error; held requests keep
+\* waiting for the start timeout
+DoAddPublisherBad(st, p, n) ==
+    IF SourceKind # "publisher" THEN Ev(st, Resp(p, "err_notpub", 0))
+    ELSE IF st.source # "none" /\ ~Override THEN Ev(st, Resp(p, "err_busy", 0))
+    ELSE LET a == IF st.source # "none"
+                  THEN ExecuteRemovePublisher(Ev(st, E("close", st.source, "", 0)))
+                  ELSE st
+             b == SetAvailable(a, n)
+             c == IF InitFailureTakesStreamDown THEN SetNotAvailable(b) ELSE b
+         IN Ev(c, Resp(p, "err_init", 0))
+
 DoRemovePublisher(st, p) == IF st.source = p THEN ExecuteRemovePublisher(st) ELSE st
 
 DoAddReader(st, r) ==
@@ -219,6 +235,7 @@ MaybeIdleClose(st) == IF st.alive /\ ShouldClose(st) THEN DoTerminate(st) ELSE s
 Step(st0, in, n) ==
     LET st == [st0 EXCEPT !.ev = <<>>] IN
     CASE in.a = "AddPublisher"    -> MaybeIdleClose(DoAddPublisher(st, in.c, n))
+      [] in.a = "AddPublisherBad" -> MaybeIdleClose(DoAddPublisherBad(st, in.c, n))
       [] in.a = "RemovePublisher" -> MaybeIdleClose(DoRemovePublisher(st, in.c))
       [] in.a = "AddReader"       -> MaybeIdleClose(DoAddReader(st, in.c))
       [] in.a = "RemoveReader"    -> MaybeIdleClose(DoRemoveReader(st, in.c))
@@ -270,7 +287,7 @@ UpdD(ds, ev, held) ==
 \* for a name whose (regex) path does not exist
 ApplyIn(s, ns, gone, in) ==
     LET base == IF s.alive THEN s
-                ELSE IF in.a \in {"AddPublisher", "AddReader", "Describe"} /\ ~gone
+                ELSE IF in.a \in {"AddPublisher", "AddPublisherBad", "AddReader", "Describe"} /\ ~gone
                      THEN StartPath(ns) ELSE s
         n  == ns + 1
         s1 == IF base.alive THEN Step(base, in, n) ELSE [base EXCEPT !.ev = <<>>]
@@ -295,6 +312,7 @@ Do(in) ==
 In(a, c) == [a |-> a, c |-> c]
 
 AddPublisher(p)    == pstat[p] = "idle" /\ (st.alive \/ ~confGone) /\ Do(In("AddPublisher", p))
+AddPublisherBad(p) == pstat[p] = "idle" /\ (st.alive \/ ~confGone) /\ SourceKind = "publisher" /\ Do(In("AddPublisherBad", p))
 RemovePublisher(p) == pstat[p] \in {"attached", "closed"} /\ Do(In("RemovePublisher", p))
 AddReader(r)       == rstat[r] \in {"idle", "attached"} /\ (st.alive \/ ~confGone) /\ Do(In("AddReader", r))
 RemoveReader(r)    == rstat[r] \in {"attached", "closed"} /\ Do(In("RemoveReader", r))
@@ -314,7 +332,7 @@ Init == /\ st = (IF Regex THEN Dead ELSE StartPath(0))
         /\ steps = 0
         /\ hist = <<>>
 
-Next == \/ \E p \in Pubs : AddPublisher(p) \/ RemovePublisher(p)
+Next == \/ \E p \in Pubs : AddPublisher(p) \/ AddPublisherBad(p) \/ RemovePublisher(p)
         \/ \E r \in Readers : AddReader(r) \/ RemoveReader(r)
         \/ \E d \in Descs : Describe(d)
         \/ StaticReady \/ StaticNotReady \/ ReadyTimer \/ CloseTimer \/ Terminate
@@ -363,7 +381,7 @@ C16_AtMostOneSource(h) ==
 \* a new publisher is rejected while another is active, unless override is enabled
 C16_RejectedUnlessOverride(h, override) ==
     \A i \in 1..Len(h) :
-        (h[i].in.a = "AddPublisher" /\ ~override /\ HoldersUpTo(h, i - 1) \ {h[i].in.c} # {})
+        (h[i].in.a \in {"AddPublisher", "AddPublisherBad"} /\ ~override /\ HoldersUpTo(h, i - 1) \ {h[i].in.c} # {})
             => \A k \in 1..Len(h[i].ev) :
                    ~(h[i].ev[k].t = "resp" /\ h[i].ev[k].c = h[i].in.c /\ h[i].ev[k].v = "stream")
 
@@ -427,7 +445,7 @@ C18_TeardownOnUnavailable(h) ==
 RespCount(h, c, i) ==   \* responses to client c in steps i..Len(h)
     Len(SelectSeq(AllEv(SubSeq(h, i, Len(h))), LAMBDA e : e.t = "resp" /\ e.c = c))
 
-RequestSteps(h) == {i \in 1..Len(h) : h[i].in.a \in {"AddReader", "Describe", "AddPublisher"}}
+RequestSteps(h) == {i \in 1..Len(h) : h[i].in.a \in {"AddReader", "Describe", "AddPublisher", "AddPublisherBad"}}
 
 \* the next request step of the same client, or Len(h)+1
 NextReq(h, i) ==
@@ -452,11 +470,21 @@ C19_AnsweredWhenWaitEnds(h) ==
         (h[i].in.a \in {"ReadyTimer", "Terminate"}) =>
             \A j \in RequestSteps(h) : (j < i /\ NextReq(h, j) > i) => RespBetween(h, h[j].in.c, j, i + 1) = 1
 
+\* availability of the stream after a sequence of events (between the launch of the available
+\* command and the launch of the unavailable command)
+RECURSIVE AvailAfter(_, _, _)
+AvailAfter(avail, ev, k) ==
+    IF k > Len(ev) THEN avail
+    ELSE LET e == ev[k] IN
+         IF e.t = "cmd" /\ e.c = "available" /\ e.v = "start" THEN AvailAfter(TRUE, ev, k + 1)
+         ELSE IF e.t = "cmd" /\ e.c = "unavailable" THEN AvailAfter(FALSE, ev, k + 1)
+         ELSE AvailAfter(avail, ev, k + 1)
 \* a source becoming ready answers every waiting reader/describe request (with the stream or,
 \* for readers over the limit, an error)
 C19_AnsweredWhenReady(h) ==
     \A i \in 1..Len(h) :
-        (\E k \in 1..Len(h[i].ev) : h[i].ev[k].t = "cmd" /\ h[i].ev[k].c = "available" /\ h[i].ev[k].v = "start") =>
+        (/\ \E k \in 1..Len(h[i].ev) : h[i].ev[k].t = "cmd" /\ h[i].ev[k].c = "available" /\ h[i].ev[k].v = "start"
+         /\ AvailAfter(FALSE, h[i].ev, 1)) =>      \* ... and is still available when the step ends
             \A j \in RequestSteps(h) :
                 (j < i /\ NextReq(h, j) > i /\ h[j].in.a \in {"AddReader", "Describe"})
                     => RespBetween(h, h[j].in.c, j, i + 1) = 1
@@ -477,13 +505,6 @@ StreamAfter(cur, ev, k) ==   \* available stream number after events 1..k-1... f
 \* became available during the step (availability = between the launch of the available
 \* command and the launch of the unavailable command). Step granularity, because responses
 \* are logged by the requesters' goroutines.
-RECURSIVE AvailAfter(_, _, _)
-AvailAfter(avail, ev, k) ==
-    IF k > Len(ev) THEN avail
-    ELSE LET e == ev[k] IN
-         IF e.t = "cmd" /\ e.c = "available" /\ e.v = "start" THEN AvailAfter(TRUE, ev, k + 1)
-         ELSE IF e.t = "cmd" /\ e.c = "unavailable" THEN AvailAfter(FALSE, ev, k + 1)
-         ELSE AvailAfter(avail, ev, k + 1)
 C19_StreamOnlyWhileAvailable(h) ==
     \A i \in 1..Len(h) :
         (\E k \in 1..Len(h[i].ev) : h[i].ev[k].t = "resp" /\ h[i].ev[k].v = "stream" /\ h[i].ev[k].c \in (Readers \cup Descs))
